@@ -166,6 +166,10 @@ fn exec(case: &[Tok]) -> Vec<Tok> {
     let mut handles: Vec<Option<H>> = Vec::new();
     let mut slots: HashMap<u128, Slot> = HashMap::new();
     let mut out: Vec<u128> = Vec::new();
+    // In half of the cases (chosen by the history itself) an Unlock is an updater that PANICS while it holds the
+    // guard: the update mutex is poisoned, and every later lock() recovers the guard from the PoisonError.  The
+    // model knows no poison: a recovered guard must lock, publish and unlock exactly like a fresh one.
+    let by_panic = ops.iter().fold(ops.len() as u128, |acc, x| acc.wrapping_add(*x)) % 2 == 1;
     for p in ops.chunks(2).take(400) {
         if p.len() < 2 {
             break;
@@ -225,7 +229,7 @@ fn exec(case: &[Tok]) -> Vec<Tok> {
                 if slots.values().all(|s| s.guard.is_none()) {
                     let s = slots.get_mut(&a).unwrap();
                     // SAFETY: see above
-                    s.guard = Some(unsafe { &*s.atomic }.lock().unwrap());
+                    s.guard = Some(unsafe { &*s.atomic }.lock().unwrap_or_else(|e| e.into_inner()));
                     s.derived = None;
                     res = Some(0);
                 }
@@ -268,7 +272,19 @@ fn exec(case: &[Tok]) -> Vec<Tok> {
             }
             8 => {
                 let s = slots.get_mut(&a).unwrap();
-                if s.guard.take().is_some() {
+                if let Some(g) = s.guard.take() {
+                    if by_panic {
+                        let r = util::catch(move || {
+                            let _held = g;
+                            std::panic::resume_unwind(Box::new("updater died holding the guard"));
+                        });
+                        assert!(r.is_none());
+                        // harness self-check: the mutex really is poisoned now
+                        // SAFETY: see above
+                        assert!(unsafe { &*s.atomic }.lock().is_err(), "unlock by unwinding did not poison the update mutex");
+                    } else {
+                        drop(g);
+                    }
                     s.derived = None;
                     res = Some(0);
                 }
